@@ -42,9 +42,10 @@ const (
 	KOnce
 	KClose
 	KPause
+	KSelect
 )
 
-var kindNames = [...]string{"load", "store", "rmw", "casfail", "lock", "unlock", "rlock", "runlock", "send", "recv", "wgadd", "wgwait", "yield", "spawn", "start", "once", "close", "pause"}
+var kindNames = [...]string{"load", "store", "rmw", "casfail", "lock", "unlock", "rlock", "runlock", "send", "recv", "wgadd", "wgwait", "yield", "spawn", "start", "once", "close", "pause", "select"}
 
 func (k Kind) String() string { return kindNames[k] }
 
@@ -187,6 +188,7 @@ type Exec struct {
 	Tracing  bool
 	ctrlVC   VC
 	enabledBuf []int
+	inStep     int
 }
 
 func NewExec() *Exec {
@@ -340,6 +342,9 @@ func Point(k Kind, obj unsafe.Pointer, en func() bool) {
 			return
 		}
 		t.exitNow()
+	}
+	if x.inStep > 0 {
+		return // part of the step already granted (see InStep)
 	}
 	t.pendKind, t.pendObj, t.pendEnabled = k, obj, en
 	next := x.pick(t)
@@ -923,6 +928,20 @@ func trimStack(s string) string {
 func Exiting() bool {
 	x := X
 	return x != nil && x.aborting
+}
+
+// InStep runs f as part of the step the running thread has just been granted: scheduling points
+// inside f do not yield (the select shim performs its chosen send / receive this way), while
+// their effects (signature, clocks) are recorded as usual.
+func InStep(f func()) {
+	x := X
+	if x == nil || x.cur == nil {
+		f()
+		return
+	}
+	x.inStep++
+	f()
+	x.inStep--
 }
 
 // Sequentially runs f as the controller would (shim operations pass through, nothing is
